@@ -2,6 +2,7 @@ SPECIFICATION MCSpec
 CONSTANTS
   NWriters = 2
   Mode = "local"
+  FirstUse = TRUE
   Recheck = TRUE
   TrackSched = TRUE
   CellMap = "separate"
@@ -11,3 +12,4 @@ INVARIANT PartsUnderTheOneId
 INVARIANT FinaliseUnderTheOneId
 INVARIANT CompleteAtEnd
 INVARIANT LockFreeAtEnd
+INVARIANT OneLocalLock
